@@ -133,7 +133,7 @@ class C14(Prop):
                    "cond_star", "both_after_same_second_size_change", "lm_from_future_skew_after_change",
                    "cond_unjudged_subsecond_or_ctime_only", "pages_alias_url", "asgi_request", "wsgi_request",
                    "validators_from_older_response", "two_files")
-    quick_runs = 150000
+    quick_runs = 100000
     thorough_runs = 1500000
     batch = 500
 
@@ -332,7 +332,7 @@ class C14(Prop):
         sent = "+".join(x for x in (("etag" if form not in (None, "star") else form), "last-modified" if ims else None) if x) or "plain"
         sent_full = "+".join(x for x in (form, "last-modified" if ims else None) if x) or "plain"
         hist.append("t+%dms GET %s %s [%s%s] -> %s etag=%s lm=%s body=%s" % (
-            now - BASE_MS, iface, url, sent_full, (" of response at op %d (v%d)" % (e.src, e.version)) if e is not None else "",
+            now - BASE_MS, iface, url, sent_full, (" of response at op %d (v%d)" % (e.src, e.version)) if e is not None and form != "star" else "",
             status if exc is None else exc, (etag or "-")[:9], lm or "-", self._whose(f, body)))
 
         def bad(clause, disc, why):
